@@ -958,8 +958,15 @@ class Executor(Engine):
                     if isinstance(last, ast.Return):
                         break
                 ok = isinstance(last, ast.Return) and isinstance(last.value, ast.Name) and last.value.id == fn.args.args[0].arg
+                # ... and the branches before it are taken for Path / str objects only
+                p0 = fn.args.args[0].arg
+                tests, node_ = [], fn.body[-1]
+                while isinstance(node_, ast.If):
+                    tests.append(ast.unparse(node_.test))
+                    node_ = node_.orelse[0] if len(node_.orelse) == 1 and isinstance(node_.orelse[0], ast.If) else None
+                ok = ok and tests == [f"isinstance({p0}, Path)", f"isinstance({p0}, str)"]
             if not ok:
-                raise Unsupported("_prepare no longer ends in `else: return data`")
+                raise Unsupported("_prepare is no longer `if isinstance(data, Path) ... elif isinstance(data, str) ... else: return data`")
             c.trusted.add("_prepare(obj) returns obj for in-memory objects (its file / URL branches are outside the proof: bounded lemma C13.path_str_object_agree)")
             outs = []
             for s1, v in self.cev(call.args[0], st, catching):
